@@ -485,7 +485,7 @@ func firstDiffB(a, b []byte) int {
 var propPatcher = h.Prop[PatchSpec]{
 	ID: "C18", Name: "viapatcher",
 	Gen: func(t *rapid.T) PatchSpec {
-		s := PatchSpec{Pair: h.GenPair(t, h.GenOpts{KindChange: true})}
+		s := PatchSpec{Pair: h.GenPair(t, h.GenOpts{KindChange: true, ConstCap: 16384})}
 		s.Optimize = rapid.IntRange(0, 2).Draw(t, "optimize") == 0
 		if rapid.Bool().Draw(t, "damage") {
 			s.Damage = h.GenDamages(t, s.Pair.Old, 2, false, false)
